@@ -95,20 +95,6 @@ func (p *Program) VerifyFunc(c *Contract) (res *FuncResult) {
 	}()
 	st := &State{Cells: map[*Cell]Val{}, Mem: map[*Region]*Term{}, Maps: map[*Cell]*MapState{}, Ghost: map[string]*Term{}}
 	st.Big = Sym("heap0", ArraySort(IntSort, IntSort))
-	// global big constants
-	var gnames []string
-	for n := range p.BigGlobals {
-		gnames = append(gnames, n)
-	}
-	sort.Strings(gnames)
-	for _, n := range gnames {
-		v, ok := p.Consts[n]
-		if !ok {
-			continue
-		}
-		bi, _ := newBig(v)
-		ex.Assumes = append(ex.Assumes, Eq(Select(st.Big, IntC(int64(p.BigGlobals[n]))), IntBig(bi)))
-	}
 	ex.initGhosts(st, c)
 	var args []Val
 	vars := map[string]Val{}
